@@ -1,4 +1,5 @@
 import Bt.Algos.Program
+import Bt.Algos.ProgramX
 import Bt.Algos.Sched
 import Bt.Driver.Engine
 /- `wholerun`: a complete (possibly nested) `Backtest.run()` of a program tree, executed by the model from the real
@@ -76,6 +77,62 @@ def handleWholeRun (line : String) : String :=
   | .ok (.error e) => "err " ++ e.toString
   | .ok (.ok s) =>
     let ws := simWorlds s
+    "ok " ++ toString ws.length ++ " " ++ " ".intercalate (ws.flatMap prWorld)
+
+/-! ### extended programs (`wholerunx`) -/
+
+def pNSpec : P (Select.NSpec Float) := do
+  match (← next) with
+  | "I" => do let k ← nat; pure (.int k)
+  | "R" => do let x ← float; pure (.real x)
+  | t => throw s!"unknown n spec {t}"
+
+def pSelStep : P (SelStep Float) := do
+  match (← next) with
+  | "A" => do let nd ← bool; let neg ← bool; pure (.all nd neg)
+  | "T" => do let idx ← list nat; let nd ← bool; let neg ← bool; pure (.these idx nd neg)
+  | "H" => do let lo ← list nat; let mc ← nat; let nd ← bool; let neg ← bool; pure (.hasData lo mc nd neg)
+  | "M" => do
+    let win ← list (opt (do let a ← nat; let b ← nat; pure (a, b)))
+    let n ← pNSpec; let asc ← bool; let aon ← bool
+    pure (.momentum win n asc aon)
+  | t => throw s!"unknown selection step {t}"
+
+partial def pGTree (cfg : Cfg Float) (idx : List Cal.Stamp) : P (GTree Float) := do
+  let k ← pKind
+  let f1 ← bool; let f2 ← bool; let f3 ← bool
+  let ucols ← list nat
+  let sels ← list pSelStep
+  let wgh ← pWgh
+  let kids ← list (do
+    match (← next) with
+    | "N" => pure none
+    | _ => some <$> pGTree cfg idx)
+  let p : ProgX Float := { gate := gateOf k ⟨f1, f2, f3⟩ idx, ucols, sels, wgh }
+  pure (.node (progRunX cfg p) kids)
+
+partial def pSimG (cfg : Cfg Float) (idx : List Cal.Stamp) : P (SimG Float) := do
+  let w ← pWorld
+  let t ← pGTree cfg idx
+  let papers ← list (do let path ← list nat; let s ← pSimG cfg idx; pure (path, s))
+  pure (.mk w t papers)
+
+partial def simWorldsG : SimG Float → List (World Float)
+  | .mk w _ papers => w :: papers.flatMap fun (_, s) => simWorldsG s
+
+def handleWholeRunX (line : String) : String :=
+  let p : P (Except Err (SimG Float)) := do
+    let cfg ← pCfg
+    let capital ← float
+    let dates ← list nat
+    let idx ← list pStamp
+    let s ← pSimG cfg idx
+    pure (simRunG cfg capital dates s)
+  match Tok.run p line with
+  | .error e => "bad " ++ e
+  | .ok (.error e) => "err " ++ e.toString
+  | .ok (.ok s) =>
+    let ws := simWorldsG s
     "ok " ++ toString ws.length ++ " " ++ " ".intercalate (ws.flatMap prWorld)
 
 end Bt.Driver
